@@ -70,6 +70,18 @@ def run_jobs(jobs: list[dict], workdir: str, max_par: int = NPROC, timeout: floa
             if os.path.exists(outfile):
                 with open(outfile) as f:
                     results[idx] = json.load(f)
+            elif rc in (-4, -6, -7, -8, -11) and os.path.exists(outfile + ".current"):
+                # fatal signal (SIGILL/ABRT/BUS/FPE/SEGV): the interpreter crashed while running generated cases against the
+                # library; report the last case that was started as a failure of the property
+                with open(outfile + ".current") as f:
+                    try:
+                        last = json.load(f)
+                    except ValueError:
+                        last = None
+                sig = f"crash|signal{-rc}"
+                results[idx] = {"evaluations": 1, "digests": [], "classes": {}, "samples": [],
+                                "failures": {sig: {"count": 1, "spec": last, "size": 0, "message": f"worker process died with signal {-rc}; "
+                                             "the last case started is saved (the crash may need the cases before it as well)"}}}
             else:
                 with open(logf.name) as f:
                     tail = f.read()[-4000:]
